@@ -12,6 +12,7 @@ package harness
 // interleaving; totals must equal what was recorded, and the detector must stay silent.
 
 import (
+	"flag"
 	"fmt"
 	"sort"
 	"strings"
@@ -85,12 +86,17 @@ func genC18Op(rt *rapid.T, c *C18Case, identity bool) C18Op {
 	return op
 }
 
+var flagMode = flag.String("verif.mode", "", "C18: force the case mode (identity | accounting); the driver runs identity cases in a race-free binary")
+
 func genC18(rt *rapid.T) C18Case {
 	var c C18Case
 	if rapid.IntRange(0, 2).Draw(rt, "mode") == 0 {
 		c.Mode = "identity"
 	} else {
 		c.Mode = "accounting"
+	}
+	if *flagMode != "" {
+		c.Mode = *flagMode
 	}
 	c.Names = []string{"requests_total", "latency", "x"}[:rapid.IntRange(1, 3).Draw(rt, "nnames")]
 	nts := rapid.IntRange(1, 3).Draw(rt, "ntagsets")
@@ -105,7 +111,7 @@ func genC18(rt *rapid.T) C18Case {
 	for i := 0; i < nc; i++ {
 		c.Clients = append(c.Clients, rapid.SliceOfN(rapid.Custom(func(rt *rapid.T) C18Op { return genC18Op(rt, &c, false) }), 1, tierN(7, 12)).Draw(rt, "client"))
 	}
-	c.Schedule = rapid.SliceOfN(rapid.Uint16Range(0, 3), 0, tierN(160, 400)).Draw(rt, "schedule")
+	c.Schedule = genSchedule(rt, tierN(300, 600))
 	return c
 }
 
